@@ -35,8 +35,10 @@ use parser::Parser;
 use pattern::Pattern;
 use quote::ToTokens;
 
-use proc_macro2::{TokenStream, TokenTree};
+use proc_macro2::TokenStream;
 use quote::quote;
+use syn::parse::Parser as _;
+use syn::punctuated::Punctuated;
 use syn::spanned::Spanned;
 use syn::{parse_quote, LitBool};
 use syn::{Fields, ItemEnum};
@@ -460,18 +462,17 @@ pub fn strip_attributes(input: TokenStream) -> TokenStream {
     for attr in &mut item.attrs {
         if let syn::Meta::List(meta) = &mut attr.meta {
             if meta.path.is_ident("derive") {
-                let mut tokens =
-                    std::mem::replace(&mut meta.tokens, TokenStream::new()).into_iter();
-
-                while let Some(TokenTree::Ident(ident)) = tokens.next() {
-                    let punct = tokens.next();
-
-                    if ident == "Logos" {
-                        continue;
-                    }
-
-                    meta.tokens.extend([TokenTree::Ident(ident)]);
-                    meta.tokens.extend(punct);
+                // The derive list holds paths (`Debug`, `serde::Serialize`, `logos::Logos`):
+                // drop the ones naming `Logos` and keep every other path untouched.
+                let parser = Punctuated::<syn::Path, syn::Token![,]>::parse_terminated;
+                if let Ok(paths) = parser.parse2(meta.tokens.clone()) {
+                    let kept = paths.into_iter().filter(|path| {
+                        !path
+                            .segments
+                            .last()
+                            .is_some_and(|segment| segment.ident == "Logos")
+                    });
+                    meta.tokens = quote!(#(#kept),*);
                 }
             }
         }
